@@ -272,7 +272,7 @@ def _random_case(r, alg):
         m = r.randint(1, 5)
         v0 = r.randint(-3, 3)
         ls = [r.choice([0, 0, 0, 1, 2]) for _ in range(m)]
-        us = [max(0, l + r.choice([-1, 0, 0, 1, 2, n])) for l in ls]
+        us = [max(0, l + r.choice([-1, 0, 0, 1, 2, n, 40000])) for l in ls]
         return alg, [v0] + ls + us, tuple(rnd_iv(r, v0, v0 + m - 1, r.choice([0, 1, 2, m])) for _ in range(n))
     if alg == "lexicographic_leq":
         m = r.choice([1, 2, 3, 3, 4])
@@ -320,7 +320,7 @@ def big_case(r: random.Random):
         m = r.choice([1, 2, 3, 5, 8, 12])
         v0 = r.choice([-7, 0, 1, 100])
         ls = [r.choice([0, 0, 0, 1, 2]) for _ in range(m)]
-        us = [max(0, l + r.choice([-1, 0, 0, 1, 2, n])) for l in ls]
+        us = [max(0, l + r.choice([-1, 0, 0, 1, 2, n, 40000])) for l in ls]
         box = []
         for _ in range(n):
             a = r.randint(v0, v0 + m - 1)
